@@ -198,6 +198,11 @@ def guarded(fn, seconds=20):
     signal.alarm(seconds)
     try:
         return fn()
+    except SystemError as e:
+        # the alarm went off inside a numba dispatcher call: CPython reports "returned a result with an exception set" caused by _Hang
+        if isinstance(e.__cause__, _Hang) or isinstance(e.__context__, _Hang):
+            raise _Hang() from e
+        raise
     finally:
         signal.alarm(0)
         signal.signal(signal.SIGALRM, old)
@@ -825,7 +830,7 @@ def check_strat_params(rep, rng, tier):
                 w = np.asarray(out[0], dtype=np.float64)
                 # C18_weights, numerically: positive, strictly decreasing, sum 1, proportional to ln(mu + 1/2) - ln(i)
                 ok_w = (w.shape == (mu,) and np.all(w > 0) and np.all(np.diff(w) < 0) and abs(float(np.sum(w)) - 1.0) <= 1e-12 * max(1, mu ** 0.5)
-                        and np.allclose(w, ref_w, rtol=1e-12, atol=0))
+                        and np.allclose(w, ref_w, rtol=1e-9, atol=1e-14))
                 if not ok_w:
                     bad("weights", "%s recombination weights for num_parents=%d are not the normalised ln(mu+1/2)-ln(i): positive, strictly "
                         "decreasing, summing to 1" % (strat, mu), strategy=strat, dim=n, mu=mu, impl=w[:8].tolist(), model=ref_w[:8].tolist())
@@ -965,7 +970,79 @@ def check_pycma(rep, rng):
             return
 
 
+class _ObsSink:
+    """stands in for the report inside observe_* (which only append to rep.extra['observations'])"""
+
+    def __init__(self):
+        self.extra = {}
+
+
+def observe_strategies(strategies, tier, seed):
+    """moment + convergence observations for the given strategies; returns (records, failures).  Every observation runs under an
+    alarm: an optimizer whose distribution degenerates (e.g. sigma growing without bound) never leaves the resampling loop of ask(),
+    and that is reported as the observation failing, not as a hung check."""
+    sink, fails = _ObsSink(), []
+    with np.errstate(all="ignore"), warnings.catch_warnings():
+        warnings.simplefilter("ignore")
+        for s in strategies:
+            r = random.Random("%s|obs|%s" % (seed, s))
+            if s != "pycma":
+                try:
+                    zmax, rel = guarded(lambda: observe_moments(sink, r, s, 3 if tier == "quick" else 5, 6000 if tier == "quick" else 40000), 40)
+                    if zmax > 7.0 or rel > 0.35:
+                        fails.append({"observation": "moments", "strategy": s, "max_z": zmax, "rel_cov_error": rel})
+                except _Hang:
+                    fails.append({"observation": "moments", "strategy": s, "did_not_terminate_within_s": 40})
+            gens = {"openai": 400, "openai_mirror": 400}.get(s, 120)
+            try:
+                d0, d1, inb = guarded(lambda: observe_convergence(sink, r, s, 3, gens), 40)
+            except _Hang:
+                fails.append({"observation": "convergence", "strategy": s, "did_not_terminate_within_s": 40,
+                              "hint": "ask() keeps resampling under the bounds [-4, 4]^3: the search distribution left the box or blew up"})
+                continue
+            if not (d1 < 0.2 * d0) or not inb:
+                fails.append({"observation": "convergence", "strategy": s, "distance_before": d0, "distance_after": d1, "in_bounds": inb})
+    return sink.extra.get("observations", []), fails
+
+
 # ---------------------------------------------------------------------------------------------------------------
+WORKER_GROUPS = [("cma",), ("sep",), ("lm", "openai", "openai_mirror")]
+ZERO_STATS = {"gens": 0, "multi_round": 0, "mu_mid": 0, "mu0": 0, "ambiguous": 0, "too_long": 0, "resets": 0, "refresh": 0,
+              "bitwise_asks": 0, "asks": 0, "max_rounds": 0}
+_WDRV = None
+
+
+def _worker_init():
+    global _WDRV
+    import common
+    _WDRV = common.Driver()
+
+
+def _run_group(idx_cases, budget, min_cases, drv):
+    import traceback
+    out = []
+    t0 = time.time()
+    for ci, case in idx_cases:
+        if time.time() - t0 > budget and len(out) >= min_cases:
+            break
+        try:
+            with np.errstate(all="ignore"):
+                probs, stats = run_case(case, drv)
+        except Exception as e:  # noqa
+            probs, stats = [P("harness-exception", 0, "%r\n%s" % (e, traceback.format_exc()[-1500:]), False)], dict(ZERO_STATS)
+        out.append((ci, probs, stats))
+    return out
+
+
+def _worker_run(args):
+    """histories of one strategy group, then (kernels compiled by now) the observations of its strategies"""
+    idx_cases, budget, min_cases, strategies, tier, seed = args
+    with warnings.catch_warnings():
+        warnings.simplefilter("ignore")
+        res = _run_group(idx_cases, budget, min_cases, _WDRV)
+        return res, observe_strategies(list(strategies), tier, seed)
+
+
 def check(rep, tier, seed, driver):
     rng = random.Random(seed)
     t_start = time.time()
@@ -982,7 +1059,9 @@ def check(rep, tier, seed, driver):
     # ---- translated fragments
     st = py2v_c18.STATUS
     rep.extra["translator"] = {k: st.get(k) for k in ("ok", "error", "source", "written", "sha")}
+    phases = rep.extra.setdefault("phase_wall_s", {})
     grad_fail = check_grad_opts(rep, rng, 150 if tier == "quick" else 1500)
+    phases["gradient_optimizers"] = round(time.time() - t_start, 1)
     if not st.get("ok"):
         rep.violation("py2v_c18 could not translate AdamOpt.step / GradientAscentOpt.step (fail-closed translator: broken tie): %s" % st.get("error"),
                       {"kind": "translation", "broken": "harness/py2v_c18.py -> coq/Generated/OptGen.v", "error": st.get("error"),
@@ -995,7 +1074,9 @@ def check(rep, tier, seed, driver):
         for v in rep.violations:
             if v["tags"].get("kind") == "build" and "OptRefine" in json.dumps(v["replay"]):
                 v["replay"]["numeric_search"] = "no-failing-input-found: real AdamOpt / GradientAscentOpt agree with the published rules to 1e-12 on %d random sequences" % rep.hist.get("adam_sequences", 0)
+    t1 = time.time()
     sp = check_strat_params(rep, rng, tier)
+    phases["strategy_parameters"] = round(time.time() - t1, 1)
     if sp is not None:
         rep.violation("%s: %s" % (sp["kind"], sp["what"]),
                       {"kind": "property" if sp["kind"] != "strategy-parameters" else "correspondence",
@@ -1017,27 +1098,39 @@ def check(rep, tier, seed, driver):
                 cases.append(json.load(open(os.path.join(cdir, f))))
     rep.count("corpus_cases", len(cases))
     n = 260 if tier == "quick" else 5200
-    budget = 46 if tier == "quick" else 400
+    budget = 30 if tier == "quick" else 300
     # all native strategies x dims 1..10 covered systematically first, then random
     for s in NATIVE:
         for _ in range(4 if tier == "quick" else 20):
             cases.append(gen_case(rng, tier, s))
     cases += [gen_case(rng, tier) for _ in range(n)]
     reported = set()
-    tot = {"asks": 0, "multi": 0}
     t0 = time.time()
-    for ci, case in enumerate(cases):
-        if time.time() - t0 > budget and ci > 40:
-            rep.count("cases_skipped_for_time", len(cases) - ci)
-            break
-        try:
-            with np.errstate(all="ignore"):
-                probs, stats = run_case(case, driver)
-        except Exception as e:  # noqa
-            import traceback
-            probs, stats = [P("harness-exception", 0, "%r\n%s" % (e, traceback.format_exc()[-1500:]), False)], {"gens": 0, "multi_round": 0, "mu_mid": 0, "mu0": 0,
-                                                                                                                 "ambiguous": 0, "too_long": 0, "resets": 0, "refresh": 0,
-                                                                                                                 "bitwise_asks": 0, "asks": 0, "max_rounds": 0}
+    # The numba JIT of the strategies' kernels (one compilation per dtype x bounds-layout signature, ~1 s each) dominates the run:
+    # the histories are split by strategy over forked workers (each with its own model driver), so the compilations proceed in parallel.
+    # Cases and their order are fixed by the seed; only how many fit into the time budget depends on the machine.
+    groups = [[(ci, c) for ci, c in enumerate(cases) if c["strategy"] in g] for g in WORKER_GROUPS]
+    min_cases = 12 if tier == "quick" else 40
+    results = obs_parts = None
+    try:
+        import multiprocessing
+        ctx = multiprocessing.get_context("fork")
+        with ctx.Pool(processes=len(groups), initializer=_worker_init) as pool:
+            parts = pool.map(_worker_run, [(g, budget, min_cases, sg, tier, seed) for g, sg in zip(groups, WORKER_GROUPS)], chunksize=1)
+        results = sorted((r for part, _ in parts for r in part), key=lambda r: r[0])
+        obs_parts = [o for _, o in parts]
+        rep.count("history_workers", len(groups))
+    except Exception as e:  # noqa  (no fork / pool failure: run in this process)
+        rep.notes.append("worker pool unavailable (%r): histories run sequentially" % (e,))
+    if results is None:
+        results = []
+        for g in groups:
+            results += _run_group(g, budget / len(groups), min_cases, driver)
+        results.sort(key=lambda r: r[0])
+    if len(results) < len(cases):
+        rep.count("cases_skipped_for_time", len(cases) - len(results))
+    for ci, probs, stats in results:
+        case = cases[ci]
         rep.count("strategy_" + case["strategy"])
         rep.count("dim_%d" % case["dim"])
         rep.count("batch_%d" % case["batch"])
@@ -1057,6 +1150,7 @@ def check(rep, tier, seed, driver):
                     rep.violation("harness exception on a case: " + probs[0]["detail"][:300], {"kind": "harness-crash", "case": case, "trace": probs[0]["detail"]}, False, {"kind": "crash"})
             else:
                 report_problem(rep, case, kind, driver, reported)
+    phases["histories"] = round(time.time() - t0, 1)
     if rep.hist.get("openai_zero_parents_moves_theta"):
         rep.notes.append("observation (not reported as a violation): OpenAIEvolutionStrategy.tell ignores num_parents, so num_parents = 0 still moves theta "
                          "(%d tells here); the zero-parents clause is claimed for the log-rank-weighted strategies (CMA-ES, sep-CMA-ES, LM-MA-ES)" % rep.hist["openai_zero_parents_moves_theta"])
@@ -1065,36 +1159,26 @@ def check(rep, tier, seed, driver):
         rep.violation("generator degenerate: only %d of %d asks needed a second resampling round" % (multi, asks), {"kind": "generator"}, False, {"kind": "generator"})
     # ---- pycma + observations
     obs_fail = []
+    t1 = time.time()
     try:
         guarded(lambda: check_pycma(rep, rng), 60)
     except _Hang:
         obs_fail.append({"observation": "pycma", "strategy": "pycma", "did_not_terminate_within_s": 60})
-    with np.errstate(all="ignore"):
-        # an optimizer whose distribution degenerates (e.g. sigma growing without bound) never leaves the resampling loop of ask():
-        # every observation runs under an alarm and a hang is reported as the observation failing, not as a hung check
-        for s in NATIVE:
-            try:
-                zmax, rel = guarded(lambda: observe_moments(rep, rng, s, 3 if tier == "quick" else 5, 6000 if tier == "quick" else 40000), 40)
-            except _Hang:
-                obs_fail.append({"observation": "moments", "strategy": s, "did_not_terminate_within_s": 40})
-                continue
-            if zmax > 7.0 or rel > 0.35:
-                obs_fail.append({"observation": "moments", "strategy": s, "max_z": zmax, "rel_cov_error": rel})
-        strategies = NATIVE + (["pycma"] if _has_cma() else [])
-        for s in strategies:
-            dim = 3
-            gens = {"openai": 400, "openai_mirror": 400}.get(s, 120)
-            try:
-                d0, d1, inb = guarded(lambda: observe_convergence(rep, rng, s, dim, gens), 40)
-            except _Hang:
-                obs_fail.append({"observation": "convergence", "strategy": s, "did_not_terminate_within_s": 40,
-                                 "hint": "ask() keeps resampling under the bounds [-4, 4]^3: the search distribution left the box or blew up"})
-                continue
-            if not (d1 < 0.2 * d0) or not inb:
-                obs_fail.append({"observation": "convergence", "strategy": s, "distance_before": d0, "distance_after": d1, "in_bounds": inb})
+    strategies = ["pycma"] if _has_cma() else []
+    if obs_parts is None:           # no worker pool: observe here
+        strategies = NATIVE + strategies
+    else:
+        for recs, fails in obs_parts:
+            rep.extra.setdefault("observations", []).extend(recs)
+            obs_fail += fails
+    recs, fails = observe_strategies(strategies, tier, seed)
+    rep.extra.setdefault("observations", []).extend(recs)
+    obs_fail += fails
+    rep.extra["observations"].sort(key=lambda o: (o["observation"], o["strategy"]))
     for o in obs_fail:
         rep.violation("observation outside its (generous) threshold: %s" % o, {"kind": "observation", "observation": o}, True,
                       {"kind": "observation-" + o["observation"], "strategy": o["strategy"]})
+    phases["pycma_and_observations"] = round(time.time() - t1, 1)
     rep.extra["harness_wall_s"] = round(time.time() - t_start, 1)
 
 
